@@ -13,7 +13,7 @@ LEVEL_TEXT = ("Static structural proof of necessary conditions: (R15.1) alias-ba
               "(R15.3) in the grouping parser each branch taken on an opening symbol reaches its end only through a test "
               "of the matching closing token whose failing edge raises, and _parse raises when tokens remain. Matching "
               "semantics, the algebraic laws and sibling-order invariance are NOT decided.")
-LEVEL_EXTRA = 'Added after the seeded evaluation: (R15.3) every opening grouping token, including the exact-match form, tests its closing token and raises, and the token fetcher raises past the end; (R15.4) search results are merged and compared by object identity, never by tag equality. Added after the hunting pass: (R15.4) also the groups of two results are compared by identity; (R15.5) every fixed-text alternative of the tokenizer pattern has a kind in the Token table. (R15.6) the element-wise zip comparison of two results is dominated by a length comparison; (R15.7) the tokenizer builds one Token per occurrence. (R15.8) a bare term is tested against the schema-path terms of the tag. (R15.9) the star prefix is tested on the short form; (R15.10) the batch interface marks a row on the search result of that same row. (R15.11) a parameter is handed on to every repository callee that takes a parameter of the same name (11 frozen exceptions package-wide).'
+LEVEL_EXTRA = 'Added after the seeded evaluation: (R15.3) every opening grouping token, including the exact-match form, tests its closing token and raises, and the token fetcher raises past the end; (R15.4) search results are merged and compared by object identity, never by tag equality. Added after the hunting pass: (R15.4) also the groups of two results are compared by identity; (R15.5) every fixed-text alternative of the tokenizer pattern has a kind in the Token table. (R15.6) the element-wise zip comparison of two results is dominated by a length comparison; (R15.7) the tokenizer builds one Token per occurrence. (R15.8) a bare term is tested against the schema-path terms of the tag. (R15.9) the star prefix is tested on the short form; (R15.10) the batch interface marks a row on the search result of that same row. (R15.11) a parameter is handed on to every repository callee that takes a parameter of the same name (11 frozen exceptions package-wide). (R15.12) no break leaves a loop of the query modules whose body adds to the returned list.'
 
 ACCESSORS = ["find_tags", "find_wildcard_tags", "find_exact_tags", "find_def_tags", "find_tags_with_term",
              "get_all_tags", "get_all_groups", "tags", "groups", "find_placeholder_tag"]
@@ -340,6 +340,47 @@ def run(ctx):
     from sa.forward import check_forwarding
     nfw = check_forwarding(ctx, "R15.11", [f for f in prog.functions.values() if f.module.name.startswith(('hed.models.query_handler', 'hed.models.query_expressions', 'hed.models.query_service', 'hed.models.query_util'))], 'e.g. exact matching')
     ctx.floor("R15.11", "same-named parameter sites", nfw, 1)
+
+    # ---------------- R15.12: a loop that collects the matches examines every candidate
+    ctx.rule("R15.12", "no `break` leaves a loop of the query modules whose body adds to the list the function returns")
+    n1512 = 0
+
+    def _own_breaks(stmts):
+        out = []
+        for st in stmts:
+            if isinstance(st, ast.Break):
+                out.append(st)
+            elif isinstance(st, (ast.For, ast.While, ast.FunctionDef, ast.AsyncFunctionDef, ast.ClassDef)):
+                out += _own_breaks(st.orelse) if isinstance(st, (ast.For, ast.While)) else []
+            else:
+                for fld in ("body", "orelse", "finalbody", "handlers"):
+                    sub = getattr(st, fld, None)
+                    if isinstance(sub, list):
+                        out += _own_breaks([x for x in sub if isinstance(x, ast.stmt)] +
+                                           [y for x in sub if isinstance(x, ast.ExceptHandler) for y in x.body])
+        return out
+    for f in prog.functions.values():
+        if f.module.name not in ("hed.models.query_expressions", "hed.models.query_util", "hed.models.query_handler", "hed.models.query_service"):
+            continue
+        returned = {x.id for r in walk_no_nested(f.node) if isinstance(r, ast.Return) and r.value is not None
+                    for x in ast.walk(r.value) if isinstance(x, ast.Name)}
+        for lp in walk_no_nested(f.node):
+            if not isinstance(lp, (ast.For, ast.While)):
+                continue
+            adds = [x for st in lp.body for x in ast.walk(st) if
+                    (isinstance(x, ast.Call) and isinstance(x.func, ast.Attribute) and x.func.attr in ("append", "extend", "add")
+                     and isinstance(x.func.value, ast.Name) and x.func.value.id in returned) or
+                    (isinstance(x, ast.AugAssign) and isinstance(x.target, ast.Name) and x.target.id in returned)]
+            if not adds:
+                continue
+            n1512 += 1
+            ctx.saw(f)
+            brk = _own_breaks(lp.body)
+            ctx.check(not brk, "R15.12", f.qualname, brk[0] if brk else lp.iter if isinstance(lp, ast.For) else lp.test, loc(f, brk[0] if brk else lp),
+                      "the loop that collects matches into the returned list is left by `break`: only the first candidate(s) in "
+                      "traversal order are kept, so the answer depends on the order of sibling groups and a conjunction that needs two "
+                      "different matching groups fails", desc="%s: collecting loop examines every candidate" % f.short)
+    ctx.floor("R15.12", "collecting loops in the query modules", n1512, 6)
 
 
 def _only_guards_raise(m, cmp):
